@@ -20,7 +20,7 @@ from elementpath.namespaces import XSLT_XQUERY_SERIALIZATION_NAMESPACE
 from elementpath.datatypes import AnyAtomicType, AnyURI, AbstractDateTime, \
     AbstractBinary, UntypedAtomic, QName
 from elementpath.xpath_nodes import XPathNode, ElementNode, AttributeNode, DocumentNode, \
-    NamespaceNode, TextNode, CommentNode
+    NamespaceNode, TextNode, CommentNode, ProcessingInstructionNode
 from elementpath.xpath_nodes import EtreeElementNode
 from elementpath.xpath_tokens import XPathToken, XPathMap, XPathArray
 from elementpath.protocols import EtreeElementProtocol, LxmlElementProtocol
@@ -307,6 +307,12 @@ def serialize_to_xml(elements: Iterable[Any],
                 chunks.append(f'<![CDATA[{item.value}]]>')
             else:
                 chunks.append(item.value)
+            continue
+        elif isinstance(item, CommentNode):
+            chunks.append(f'<!--{item.string_value}-->')
+            continue
+        elif isinstance(item, ProcessingInstructionNode):
+            chunks.append(f'<?{item.name} {item.string_value}?>')
             continue
         elif not isinstance(item, str):
             raise xpath_error('SENR0001', token=token)
